@@ -4,16 +4,31 @@ import BB.Model.Notifier
 namespace BB.Oracle.NotifierFam
 open BB.Notifier BB.Oracle
 
-/-- element classes: 0 any, 1 int, 2 pint, 3 err ; value tokens: nil, int=k, pint=k, perr=k -/
+/-- element classes: 0 any, 1 int, 2 *int, 3 error, 4 named slice type (`type namedSlice []int`), 5 []int,
+    6 `<-chan int`; value tokens: nil, int=k, pint=k, perr=k, sl=k ([]int), nsl=k (namedSlice), ch=k (chan int).
+    Go assignability: identical types; anything to `any`; implementers to `error`; identical underlying types
+    when one side is not a named type ([]int <-> namedSlice); a bidirectional channel to a directional one. -/
 def accepts (val : String) (elem : Nat) : Bool :=
   if val == "nil" then elem != 1
   else if val.startsWith "int=" then elem == 0 || elem == 1
   else if val.startsWith "pint=" then elem == 0 || elem == 2
   else if val.startsWith "perr=" then elem == 0 || elem == 3
+  else if val.startsWith "sl=" then elem == 0 || elem == 4 || elem == 5
+  else if val.startsWith "nsl=" then elem == 0 || elem == 4 || elem == 5
+  else if val.startsWith "ch=" then elem == 0 || elem == 6
   else false
 
+def payload (val : String) : String := ((val.splitOn "=").getD 1 "")
+
+/-- what the subscriber receives: the value converted to the element type -/
 def recvTok (val : String) (elem : Nat) : String :=
-  if val == "nil" then (if elem == 2 then "pint=nil" else "nil") else val
+  if val == "nil" then
+    (if elem == 2 then "pint=nil" else if elem == 4 then "nsl=nil" else if elem == 5 then "sl=nil"
+     else if elem == 6 then "rch=nil" else "nil")
+  else if elem == 4 then "nsl=" ++ payload val
+  else if elem == 5 then "sl=" ++ payload val
+  else if elem == 6 then "rch=" ++ payload val
+  else val
 
 structure S where
   st : St := {}
